@@ -4,7 +4,7 @@ import random
 LEVEL = "fault_enumeration"
 BATCH = 2
 BATCH_TIMEOUT = 3000
-RULE = ("case = (ECC lane width 8/16/32/64 data bits, fault class, data words, seed) on LiteDRAMNativePortECC between a contract "
+RULE = ("[CORE CASES: a share of the cases (names core*) runs the same front-end and oracle on a port of the real LiteDRAMCrossbar + LiteDRAMController with the reference DRAM on DFI, refresh running, DFI protocol events of the reference model added to the witnesses] case = (ECC lane width 8/16/32/64 data bits, fault class, data words, seed) on LiteDRAMNativePortECC between a contract "
         "master and the pulsed core stub; faults are bit flips injected into the stub's store between the write and the "
         "read: every single stored bit position of every lane incl. padding (exhaustive), every pair inside one lane "
         "(exhaustive for the 8-bit lane, sampled otherwise), pairs across two lanes, no flip, decoder disabled; byte-enable "
